@@ -29,10 +29,11 @@ The places where the unchanged code does **not** satisfy the property are explic
 * `pack_fits_i32`: the packed nonbigmat string header fits `struct.pack('i', …)` iff
   `L + 1 < 32768`; `nonbigmat_overflow_example` is the 16384-row real string (finding F2);
 * `fmtE_width`: a formatted value has the announced width `digits + 7` iff it is not a negative
-  value with a three-digit exponent; `ascii_overflow_example` is `-2.5e-120` (finding F3);
-* `sparse_input_reclen_wraps`: a scipy.sparse input written in the binary dense layout computes its record
-  length in numpy int32 arithmetic; from a 2 GiB column record on it wraps to a negative marker where the ndarray
-  path raises (`write_domain`) — finding F49.
+  value with a three-digit exponent; `ascii_overflow_example` is `-2.5e-120` (finding F3).
+(Finding F49 — the record length of a scipy.sparse input in the binary dense layout was computed in numpy int32
+scalars and wrapped from a 2 GiB column record on — is repaired in /repo (`s = int(…)`, `e = int(…)`): the model
+follows the repaired code, `write_sparse_eq_write_dense` holds without any size hypothesis, and the oracle
+`_oracle_f49` of the thorough tier guards the regression.)
 
 Second half of the file (after the ASCII half): the writer's true domain (`write_domain`,
 `file_roundtrip_binary_domain`), the sparse views of the readers (`coo_view_correct`, `sparse_auto_rule`, ASCII:
@@ -618,16 +619,19 @@ theorem coo_view_correct (e : Endian) (ms : List (Layout × Mat)) (ds : List Dec
     exact cooToDense_cooList add hadd p.1 p.2.cplx p.2.rows p.2.cols hlen
 
 /-- **write_sparse_eq_write_dense.**  For every scipy.sparse input (stored triplets in any order, duplicates,
-explicit zeros; `add` is the addition that sums duplicates) the words the sparse branch of the binary writers
-produces are the words written for the ndarray `denseMat` — the found value where `sp.find` has one, `+0.0`
-elsewhere — in all three layouts; for the dense layout under the hypothesis that no record length leaves the
-int32 range (`sparse_input_reclen_wraps` shows it is needed).  The ASCII writers agree without any hypothesis. -/
+explicit zeros; `add` is the addition that sums duplicates), every layout and byte order: the *checked* binary
+writer on the sparse input (`writeOneWords … (.sp …)`: the `else  # sparse matrix` branches with every
+`struct.pack` checked) does exactly what the checked ndarray writer `writeMatWords` does on the ndarray
+`denseMat` — the found value where `sp.find` has one, `+0.0` elsewhere: the same words when it succeeds, the same
+refusal (`ValueError` / `struct.error`) when it does not; in particular the words of the two branches agree
+(`encMatWordsSp = encMatWords`), and so does the ASCII text.  No size hypothesis. -/
 theorem write_sparse_eq_write_dense (add : Nat → Nat → Nat) (e : Endian) (d : Nat) (lay : Layout) (name : List Nat)
     (form : Nat) (A : SpIn) :
-    ((lay = .dense → ∀ c, c < A.ncols → recLen .dense A.cplx (denseCol add A c) < 2 ^ 31) →
-        encMatWordsSp add e lay name form A = encMatWords e lay (denseMat add name form A)) ∧
+    writeOneWords add e lay (.sp name form A) = writeMatWords e lay (denseMat add name form A) ∧
+      encMatWordsSp add e lay name form A = encMatWords e lay (denseMat add name form A) ∧
       encMatAsciiSp add d lay name form A = encMatAscii d lay (denseMat add name form A) :=
-  ⟨fun h => encMatWordsSp_eq add e lay name form A h, encMatAsciiSp_eq add d lay name form A⟩
+  ⟨writeOneWords_dense add e lay (.sp name form A), encMatWordsSp_eq add e lay name form A,
+    encMatAsciiSp_eq add d lay name form A⟩
 
 /-- what the ndarray of a sparse input holds: at `(r, c)` the sum of the values stored there (in storage order)
 unless there is none or the sum is `±0.0`, and then `+0.0` -/
@@ -641,21 +645,6 @@ theorem denseMat_entry (add : Nat → Nat → Nat) (name : List Nat) (form : Nat
     cases sumVals add (valsAt A.trip r c) with
     | none => simp
     | some v => by_cases hz : v.isZero A.cplx = true <;> simp [hz]
-
-/-- **F49 (formal side).**  For a sparse input written in the dense layout the record length is computed in
-int32 arithmetic (`spRecLen`): from `elems = 2^28 - 1 = 268435455` doubles on (a record of 2 GiB) the marker written is a
-negative number, where the ndarray path refuses to write (`write_domain`: `recLen < 2^31`). -/
-theorem sparse_input_reclen_wraps (elems : Nat) (h1 : 268435455 ≤ elems) (h2 : elems < 536870910) :
-    ofI32 (spRecLen elems) = (3 * 4 + elems * 8 : Int) - 4294967296 ∧ ofI32 (spRecLen elems) < 0 ∧
-      ¬ (3 * 4 + elems * 8 < 2147483648) := by
-  unfold spRecLen wrap32 ofI32
-  have e1 : elems * 8 % 4294967296 = elems * 8 := Nat.mod_eq_of_lt (by omega)
-  rw [e1]
-  have e2 : (3 * 4 + elems * 8) % 4294967296 = 3 * 4 + elems * 8 := Nat.mod_eq_of_lt (by omega)
-  rw [e2]
-  refine ⟨?_, ?_, by omega⟩
-  · rw [if_neg (by omega)]; push_cast; omega
-  · rw [if_neg (by omega)]; push_cast; omega
 
 /-- non-vacuity: a sparse input with a duplicate, an explicit zero and unsorted storage; its ndarray; the three
 layouts written both ways; the COO view and `.toarray()` of a two-string column -/
@@ -708,15 +697,13 @@ matrices and forms; 0-d, 1-d or 2-d arrays of any real or complex dtype; scipy.s
 succeeds (no array with more than two dimensions) then
 * the binary file is the file the checked ndarray writer `writeFileWords` produces for the *normalised* list
   `(layout, w.dense)`: 2-d double-precision matrices (`atleast2d`, `Raw.toD`, `denseMat`) with checked names and
-  resolved forms and layouts (for a sparse input in the dense layout: as long as no record length leaves the
-  int32 range, `sparse_input_reclen_wraps`), and every ASCII matrix is the text of `encMatAscii` for it;
+  resolved forms and layouts — the same words or the same refusal — and every ASCII matrix is the text of
+  `encMatAscii` for it;
 * as many matrices are written as the shortest of the three argument lists has entries (`zip`), in order, and
   the `k`-th one is the `k`-th name (through `_check_write_names` with index `k`), matrix and form. -/
 theorem write_input_normalised (close : Entry → Entry → Bool) (add : Nat → Nat → Nat) (e : Endian) (d : Nat)
     (opt : Option Layout) (names : NamesArg) (mats : MatsArg) (forms : FormsArg) (ws : List (Layout × WMat))
-    (hprep : prepare close add opt names mats forms = some ws)
-    (hnowrap : ∀ p ∈ ws, p.1 = .dense → ∀ name form A, p.2 = .sp name form A → ∀ c, c < A.ncols →
-      recLen .dense A.cplx (denseCol add A c) < 2147483648) :
+    (hprep : prepare close add opt names mats forms = some ws) :
     writeAllWords add e ws = writeFileWords e (ws.map fun p => (p.1, p.2.dense add)) ∧
       (∀ p ∈ ws, writeOneAscii add d p.1 p.2 = encMatAscii d p.1 (p.2.dense add)) ∧
       ws.length = min (plumb names mats forms).1.length
@@ -725,7 +712,7 @@ theorem write_input_normalised (close : Entry → Entry → Bool) (add : Nat →
         ∃ n m f, (plumb names mats forms).1[k]? = some n ∧ (plumb names mats forms).2.1[k]? = some m ∧
           (plumb names mats forms).2.2[k]? = some f ∧ normOne close add (writeName k n) f m = some p.2 ∧
           p.1 = resolveLayout opt p.2.isSparse p.2.rows := by
-  refine ⟨writeAllWords_dense add e ws hnowrap, fun p _ => writeOneAscii_dense add d p.1 p.2, ?_, ?_⟩
+  refine ⟨writeAllWords_dense add e ws, fun p _ => writeOneAscii_dense add d p.1 p.2, ?_, ?_⟩
   all_goals
     unfold prepare at hprep
     dsimp only at hprep
